@@ -93,7 +93,7 @@ Proof.
   - (* bridge *)
     destruct (addl (d_tree (x_db x)) (x_mem x) blk (b_pos b) (b_dc b) (leafh b)) as [mem' [e|t']] eqn:Eadd; [discriminate|].
     destruct (hits f (x_cnt x) TRoot); [discriminate|].
-    destruct (hits f (bump (x_cnt x) TRoot) TRht); [discriminate|].
+    destruct (hits_rht f (x_cnt x) _); [discriminate|].
     destruct (hits f _ TBridge); [discriminate|].
     destruct (existsb _ _); [discriminate|]. inversion E; subst x'. clear E.
     pose proof (tx_reach _ _ _ _ _ HI) as HR.
@@ -167,7 +167,7 @@ Proof.
       rewrite Eadd in E2. discriminate.
     + exact (R_wrong HT node zhf _ _ _ blk (b_pos b) (b_dc b) (leafh b) mem' _ HR Ne Eadd).
   - (* AddLeaf succeeded; the failure came later *)
-    destruct (hits f (x_cnt x) TRoot || hits f (bump (x_cnt x) TRoot) TRht) eqn:Ef; [|apply Hinval; lia].
+    destruct (hits f (x_cnt x) TRoot || hits_rht f (x_cnt x) _) eqn:Ef; [|apply Hinval; lia].
     destruct (x_added x) eqn:Ea; [|apply Hinval; lia]. cbn [rollback_mem TreeStore.Gen.rollback_mem].
     destruct (tx_zero _ _ _ _ _ HI Ea) as (Et & Eb & Em).
     assert (Eh : hist_of (x_db x) = hist_of d0) by (unfold hist_of; rewrite Eb; reflexivity).
